@@ -167,6 +167,88 @@ def rr_case(init, start0, calls, starts):
     return c
 
 
+
+# ------------------------------------------------------------------ end-to-end through Producer
+def producer_history(rnd):
+    """list of (topic index, key bytes or None, partition list of that topic at call time)"""
+    kind = rnd.choice(["rr", "rr", "hashed"])
+    random_start = rnd.random() < 0.4
+    ntopics = rnd.randint(1, 3)
+    cur = {t: sorted(gen_parts(rnd, allow_empty=False)) for t in range(ntopics)}
+    calls = []
+    for _ in range(rnd.randint(3, 30)):
+        t = rnd.randrange(ntopics)
+        if rnd.random() < 0.12:
+            cur[t] = sorted(gen_parts(rnd, allow_empty=False))
+        key = gen_key(rnd)[:12] if kind == "hashed" else None
+        calls.append((t, key, list(cur[t])))
+    return {"kind": kind, "random_start": random_start, "calls": calls}
+
+
+def impl_producer(hist, rnd):
+    """Drive the real Producer (unbatched) over a stand-in client; observe the partition of each payload."""
+    from twisted.internet import defer, task
+    import afkak.partitioner as P
+    from afkak.producer import Producer
+    from afkak.common import ProduceResponse
+
+    drawn = []
+
+    def fake_randint(a, b):
+        v = rnd.randint(a, b)
+        drawn.append(v)
+        return v
+
+    class Client(object):
+        def __init__(self):
+            self.reactor = task.Clock()
+            self.topic_partitions = {}
+            self._api_versions = 0
+            self.sent = []
+
+        def metadata_error_for_topic(self, topic):
+            return 0
+
+        def load_metadata_for_topics(self, *topics):
+            return defer.succeed(True)
+
+        def reset_topic_metadata(self, *topics):
+            pass
+
+        def send_produce_request(self, payloads, **kw):
+            self.sent.append([(p.topic, p.partition) for p in payloads])
+            return defer.succeed([ProduceResponse(p.topic, p.partition, 0, 0) for p in payloads])
+
+    client = Client()
+    old_r, old_flag = P.randint, P.RoundRobinPartitioner.randomStart
+    P.randint = fake_randint
+    per_topic = {}
+    try:
+        P.RoundRobinPartitioner.set_random_start(hist["random_start"])
+        cls = P.RoundRobinPartitioner if hist["kind"] == "rr" else P.HashedPartitioner
+        prod = Producer(client, partitioner_class=cls)
+        for t, key, parts in hist["calls"]:
+            topic = "topic%d" % t
+            client.topic_partitions[topic] = list(parts)
+            n0, s0 = len(drawn), len(client.sent)
+            prod.send_messages(topic, key=(bytes(key) if key is not None else None), msgs=[b"m"])
+            chosen = client.sent[s0][0][1] if len(client.sent) > s0 else -1
+            rec = per_topic.setdefault(t, [hist["kind"], hist["random_start"], None, 0, [], [], [], []])
+            if rec[2] is None:                      # first call for the topic constructs the partitioner
+                rec[2] = list(parts)
+                rec[3] = drawn[n0] if len(drawn) > n0 else 0
+                st = drawn[n0 + 1] if len(drawn) > n0 + 1 else 0
+            else:
+                st = drawn[n0] if len(drawn) > n0 else 0
+            rec[4].append(list(parts))
+            rec[5].append(st)
+            rec[6].append(key)
+            rec[7].append(chosen)
+    finally:
+        P.randint = old_r
+        P.RoundRobinPartitioner.randomStart = old_flag
+    return {t: tuple(v) for t, v in per_topic.items()}
+
 # ------------------------------------------------------------------ monitors (theorem statements over impl traces)
 def monitor_rr(calls, outs):
     """fairness: every maximal run of calls with an unchanged ascending list, cut into windows of n,
@@ -274,6 +356,34 @@ def run(ck):
         ck.violation({"kind": "correspondence broken", "correspondence": "corr:partitioner:rr_run",
                       "theorems_no_longer_tied": ["C18_rr_fair", "C18_rr_restart"],
                       "case": meta[i], "impl": impl[i], "model": mo[i], "replay_op": "rr"}, no_input=True)
+
+    # --- 4. end to end through the real Producer (producer.py:327-335: one partitioner per topic,
+    #        the CURRENT partition list of the client passed on every call)
+    cases, impl, meta = [], [], []
+    for _ in range(60 * scale):
+        hist = producer_history(rnd)
+        per_topic = impl_producer(hist, rnd)
+        ck.hist("producer_histories")
+        for topic, (kind, random_start, init, start0, calls, starts, keys, outs) in sorted(per_topic.items()):
+            if kind == "rr":
+                cases.append(rr_case(init, start0, calls, starts))
+                impl.append(outs)
+                meta.append((hist, topic))
+                bad = monitor_rr(calls, outs)
+                if bad:
+                    ck.violation({"kind": "round-robin fairness monitor (through Producer)", "what": bad, "history": hist,
+                                  "topic": topic, "outputs": outs, "replay_op": "producer"})
+            else:
+                for k, parts, o in zip(keys, calls, outs):
+                    cases.append([2] + lp(k) + lp(parts))
+                    impl.append([1, o] if o >= 0 else [0])
+                    meta.append((hist, topic))
+    diffs, mo = ck.correspond(MODEL, MODULE, cases, impl, "partitions chosen by the real Producer vs Model.Partitioner (per-topic rr_run / hashed_partition)",
+                              nontrivial=lambda c, o: len(o) >= 2, describe=describe)
+    if diffs and not ck.violations:
+        i = diffs[0]
+        ck.violation({"kind": "producer does not drive its partitioner as the model says (one partitioner per topic, current list)",
+                      "history": meta[i][0], "topic": meta[i][1], "impl": impl[i], "model": mo[i], "replay_op": "producer"})
 
     if ck.tier == "thorough":
         ck.coqchk(["AV.Props.C18"])
